@@ -541,7 +541,7 @@ def flatten(term):
 
 
 SHAPE_LEAVES = [['T', 'a'], ['spec', 'a'], ['val', 7], ['str', 'a'], ['int', 5], ['fn']]
-KEY_LEAVES = [['str', 'k'], ['T', 'name'], ['int', 3]]
+KEY_LEAVES = [['str', 'k'], ['T', 'name'], ['int', 3], ['tuple', [['T', 'a'], ['str', 'lit']]], ['fset', [['T', 'name']]], ['spec', 'name']]
 
 
 def gen_shapes_terms(depth, wide):
